@@ -7,6 +7,15 @@ tracing generator behind numpy.random.* and random.*, fake os.getpid and time.ti
 SimPool in place of pathos.multiprocessing.Pool inside the two engine modules, and a scripted os.cpu_count() answer for pools
 built with processes=None.
 
+Generator     the traced numpy.random.* / random.* functions are BOUND METHODS OF GENERATOR OBJECTS, as the real ones are (numpy's
+objects       global RandomState, random._inst): a library object that keeps such a function - or a generator made by
+              numpy.random.default_rng / RandomState - in an attribute carries the generator along; copy / deepcopy / pickle / dill
+              of the holder (what the pool does for every chunk, what the multilevel engine does with its coupling process) make a
+              DETACHED clone with (stream, position) of that moment, deaf to later seedings of the global generator; its draws are
+              reported to the harness like any other, so two chunk copies replaying the same positions are a sharing (class
+              `generator-object-copied-with-its-holder:<origin>`), a clone that ignores the seed breaks oracle (a). Names bound to
+              the functions at import time (`from numpy.random import normal`, class attributes) follow the replacement.
+
 Choice points  the worker that runs each chunk (default round robin), the second returned by each time.time() call (same as
                the previous call / next second). Bound: all sequences with at most D deviations (`bound` of the case).
 Environment    nb_of_processes=None (the constructor DEFAULT: "one worker per CPU") makes the number of workers an answer of the
@@ -20,23 +29,31 @@ Sub-check `run` (one pricing on fresh objects). Lattice: engine in {standard, mu
                seed 0 only with nb_of_processes in {1, None/2 cpus} and 4 paths, 9 paths only for the chain process of the
                standard and fixed-level engines, and explores the default schedule only (D = 0) for seed 0 with a pool and for
                the adaptive engine with nb_of_processes=None (it opens one pool per level and pass).
+               Argument form `numpy-int`: engine x process x mode with seed 7, 4 paths, nb_of_processes 2 (1, 2, 3 thorough) and
+               every integer argument (paths, nb_of_processes, levels) a numpy.int64, the maturity a Python int (D = 0 quick).
 Sub-check `repeat` (oracle (a) on fresh objects): engine x process x mode x sampling method x seed in {7, 0} (x model in {hem,
                hem with a re-initialised parameter object (alphabets.with_reinit), merton} for the inversion method; quick:
                other models with seed 7 only), 5 paths. The two runs differ in the pre-existing generator state, in the clock
-               and in the pid of the pricing process (what a time / pid derived seed is made of).
+               and in the pid of the pricing process (what a time / pid derived seed is made of). `numpy-int` twin (hem, seed 7;
+               quick: inversion only): the second run is given numpy.int64 integers and an int maturity - same samples required;
+               a form the tree refuses (TypeError / ValueError) is counted (`argument_form_rejected`), never an alarm. The seed
+               itself stays a Python int: random.seed refuses numpy integers, the unchanged tree raises.
 Sub-check `history` (several pricings, objects re-used). A history is a list of steps; a step = (whose engine prices, which
                product, which public attributes of the configuration are re-assigned before, which public method is called
                before, which public pricing method); the first step is always a plain pricing on fresh objects:
-                 on       same engine | copy: a deep copy of it (continues as the current engine) | other-engine: another engine
+                 on       same engine | copy: a deep copy of it | dill-copy: a dill round trip of it (both continue as the current
+                          engine) | shallow-copy: copy.copy of it (shares configuration and process) | other-engine: another engine
                           built from scratch (independent objects of the same classes priced in between: leaks through class
                           attributes / module caches / shared defaults) | shared-process: another engine + configuration built on
-                          the SAME process object | shared-conf: another engine + process on the SAME configuration object |
-                          new-conf: a new configuration object assigned to the engine
+                          the SAME process object | copied-process: the same on a DEEP COPY of the process | shared-conf: another
+                          engine + process on the SAME configuration object | new-conf: a new configuration object assigned to
+                          the engine
                  product  the history's own product | other-product: a product of the other simulation mode (each built once)
-                 set      paths (mc_paths / initial_mc_paths = 6), seed (11), seed0 (0), pool (nb_of_processes = 2) assigned on
-                          the live configuration; restore = {paths 4, seed 7, nb_of_processes 1}
+                 set      paths (mc_paths / initial_mc_paths = 6), seed (11), seed0 (0), unseed (None), pool (nb_of_processes = 2)
+                          assigned on the live configuration; restore = {paths 4, seed 7, nb_of_processes 1}
                  pre      init: Engine.initialisation called by the user; precomp: process.pre_computation called by the user
-                          (pre-drawn variates left unconsumed)
+                          (pre-drawn variates left unconsumed); failed: a pricing of the same kind that dies in the path loop
+                          (the user's payoff raises at its third evaluation) and is caught by the user
                  op       standard: price; multilevel: price_with_constant_mc_paths_and_level, price(rmse)
                quick    = every first op x every step label x every second op, plus the sandwiches op1 / X.opm / restore.op1
                           with X in SANDWICH - all with seed 7, one process, inversion sampler - plus the plain repetitions
@@ -51,19 +68,35 @@ Oracle (a) with a seed and one process, a pricing stores identical samples (and 
            freshly built objects (`history`; only the first failing step of a history is reported, the key names the history
            up to that step);
        (b) within one run (one step of a history) the sets of variates consumed by two different samples - (stream, position)
-           of every draw made while the sample is simulated, plus the pre-drawn Brownian / jump-count row it pops - are pairwise
-           disjoint, across paths, passes, levels and simulated workers; every sample of a fixed-date run pops exactly one
-           pre-drawn row;
+           of every draw made while the sample is simulated, by the global generators or by a detached generator object, plus the
+           pre-drawn Brownian / jump-count row it pops - are pairwise disjoint, across paths, passes, levels and simulated
+           workers; every sample of a fixed-date run pops exactly one pre-drawn row;
        (c) classification of every sharing by its mechanism (same pre-drawn row from two chunk copies / generator re-seeded
-           to a used state at a new level or pass / two workers with one seed), which is what the violation key carries.
-Keys           C08:<engine>[:levy]:<mode>:<unseeded|seeded|seed=0>[:procs-none]:<single|pool>:samples-share-variates:<class>
-               C08:repeat:<engine>[:levy]:<mode>:<method>[:<model>][:seed=0]:seeded-single-process-run-not-reproduced
+           to a used state at a new level or pass / two workers with one seed / a generator object copied with the object that
+           holds it), which is what the violation key carries;
+       (d) every random content of a sample's path is backed by recorded variates: at least as many normal variates (drawn on the
+           fly or popped with a pre-drawn row) as the path has non-zero Brownian increments, and one more variate when it has
+           jumps - a path with content and no recorded variate was drawn from a generator the harness does not see (a private
+           RandomState / Generator object ...), which would blind (b). Not judged when variates could not be attributed (caps).
+Keys           C08:<engine>[:levy][:numpy-int-arguments]:<mode>:<unseeded|seeded|seed=0>[:procs-none]:<single|pool>:samples-share-variates:<class>
+               C08:<same prefix>:path-content-without-recorded-variate:<brownian-increments|jumps>
+               C08:repeat:<engine>[:levy]:<mode>:<method>[:<model>][:seed=0][:numpy-int-arguments]:seeded-single-process-run-not-reproduced
                C08:history:<engine>[:levy]:start=<mode>[:<method>]:<history up to step k>:step<k>:<mode of the step>:<env>:...
+               C08:conformance-real-pool:<engine>[:levy]:<mode>:<env>:samples-share-variates:<class> | ...:sharing-with-the-real-pool-
+               differs-from-the-tracing-generator-model | ...:number-of-paths-of-the-real-pool-differs-from-the-SimPool-model
                (`...:fixed:*:pool:samples-share-variates:pre-drawn-row-consumed-twice:two-pool-chunk-copies` is the open
-               known finding in all three forms).
-Conformance    the real engines are run with the REAL pathos pool on a scripted process that reports (pid, row popped, number
-               of paths produced by this copy): chunking, per-chunk copies, result order and the number of worker processes
-               must be what SimPool models - including processes=None with os.cpu_count() scripted to 3. Reported as
+               known finding in all forms - also as observed with the real pool).
+Conformance    `conformance`: the real engines are run with the REAL pathos pool on a scripted process that reports (pid, row
+               popped, number of paths produced by this copy): chunking, per-chunk copies, result order and the number of worker
+               processes must be what SimPool models - including processes=None with os.cpu_count() scripted to 3.
+               `conformance-variates`: the real engines on the REAL simulators with the REAL pool and the REAL numpy / random
+               generators: {standard/levy, standard/chain, multilevel fixed-level/chain} x {jump times, fixed dates} x seed in
+               {None, 7} x (nb_of_processes, paths) = (2, 9) [+ (None with 2 cpus, 8) = chunks of one path for the standard engine
+               in jump-time mode; thorough: + (2, 8), (3, 13), (None/2 cpus, 17)]. Every path the pool hands back to the parent's
+               path manager is observed (MCPath.set_to_path) and its variates are recovered: Brownian increment / sqrt(dt), inner
+               jump times, jump sizes (direct simulation). Two samples whose recovered variates coincide (rtol 1e-11) share them:
+               reported under the keys above (fixed dates, same slot of two chunks, Brownian family = the known finding); and
+               the set of sharing pairs must be the one the tracing generator + SimPool give for the same case. Both reported as
                traces_validated_against_impl.
 Self-checks    a draw from a numpy.random / random function the tracing generator does not replace changes the real global
                generator state: detected at the end of every run and raised (harness-exception), never a silent pass. Variates
@@ -74,7 +107,10 @@ Not covered: OS-level timing, start methods other than fork, pid reuse; nb_of_pr
 variates BETWEEN two runs of a history (the statement speaks of one run; seeded runs share by design); the max-step simulation
 mode (reached only through the SDE processes, not through the anchored engines + Levy processes); the Levy-copula and SDE
 coupling processes; control variates / spot statistics / variance reduction options (they draw nothing; antithetic raises
-NotImplementedError); a grid refined by the user between two pricings (another configuration, not a repetition).
+NotImplementedError); a grid refined by the user between two pricings (another configuration, not a repetition); a seed given as
+a numpy integer (refused by random.seed on the unchanged tree); zero paths; generator objects reached through
+numpy.random.Generator(bit generator) / numpy.random.mtrand._rand / random.Random() are not replaced by traced ones (their draws
+are seen by oracle (d) only); a pricing that fails inside the pool branch.
 """
 from __future__ import annotations
 
@@ -99,7 +135,9 @@ ASSUMPTIONS = [
     "worker processes are represented by SimPool (mc/c08_util.py); its chunking / per-chunk closure copies / result order / "
     "number of workers for processes=None are validated against the real pathos pool by the conformance sub-check",
     "two draws share a variate iff they cover the same (stream tag, position) of the tracing generator; re-seeding with a value "
-    "used before re-creates the same stream, as numpy's generator does",
+    "used before re-creates the same stream, as numpy's generator does; a copy (copy / deepcopy / pickle / dill) of a generator "
+    "object continues from the position of the moment of copying, as numpy's RandomState and random.Random do",
+    "conformance-variates: two independent continuous variates of the real generators do not coincide within rtol 1e-11",
 ]
 CHUNK = 1
 
@@ -115,19 +153,25 @@ OTHER_MODE = {"fixed": "jumptimes", "jumptimes": "fixed"}
 STEPS = {
     "same": {},
     "copy": {"on": "copy"},
+    "dill-copy": {"on": "dill-copy"},
+    "shallow-copy": {"on": "shallow-copy"},
+    "copied-process": {"on": "copied-process"},
     "other-engine": {"on": "other-engine"},
     "shared-process": {"on": "shared-process"},
     "shared-conf": {"on": "shared-conf"},
     "new-conf": {"on": "new-conf"},
     "init": {"pre": "initialisation"},
     "precomp": {"pre": "pre_computation"},
+    "failed": {"pre": "failed-pricing"},
     "other-product": {"product": "other"},
     "paths": {"set": {"paths": 6}},
     "seed": {"set": {"seed": SEED2}},
     "seed0": {"set": {"seed": 0}},
+    "unseed": {"set": {"seed": None}},
     "pool": {"set": {"procs": 2}},
 }
-SANDWICH = ("other-product", "other-engine", "shared-process", "shared-conf", "pool", "paths", "seed", "seed0")
+SANDWICH = ("other-product", "other-engine", "shared-process", "shared-conf", "pool", "paths", "seed", "seed0", "unseed", "failed",
+            "dill-copy")
 
 
 def _procs_alphabet(thorough):
@@ -221,6 +265,11 @@ def cases(tier):
                                     "cpus": cpus, "paths": paths, "bound": b})
     for engine, process in (("standard", "chain"), ("standard", "levy"), ("mlmc-fixed", "chain"), ("mlmc-adaptive", "chain")):
         for mode in ("fixed", "jumptimes"):
+            for procs in ((1, 2, 3) if thorough else (2,)):  # the integer arguments as numpy integers, pool branch included
+                out.append({"sub": "run", "engine": engine, "process": process, "mode": mode, "seed": SEED, "procs": procs, "cpus": None,
+                            "paths": 4, "bound": 1 if thorough else 0, "forms": "numpy-int"})
+    for engine, process in (("standard", "chain"), ("standard", "levy"), ("mlmc-fixed", "chain"), ("mlmc-adaptive", "chain")):
+        for mode in ("fixed", "jumptimes"):
             # every sampling method draws its states from its own source (the table method reads `random`, not numpy)
             methods = ("INVERSION", "TABLE", "ALIAS") if (thorough or engine != "mlmc-adaptive") else ("INVERSION",)
             if process == "levy":
@@ -234,32 +283,62 @@ def cases(tier):
                             continue
                         out.append({"sub": "repeat", "engine": engine, "process": process, "mode": mode, "seed": seed, "paths": 5,
                                     "method": method, "model": model})
+                        if model == "hem" and seed == SEED and (thorough or method == "INVERSION"):
+                            out.append(dict(out[-1], forms="numpy-int"))
     out += _history_cases(tier)
     for procs, paths in ((2, 4), (2, 8), (3, 9), (2, 17)):
         out.append({"sub": "conformance", "procs": procs, "cpus": None, "paths": paths, "engine": "standard"})
     out.append({"sub": "conformance", "procs": None, "cpus": 3, "paths": 13, "engine": "standard"})
     out.append({"sub": "conformance", "procs": 2, "cpus": None, "paths": 8, "engine": "mlmc-fixed"})
     out.append({"sub": "conformance", "procs": None, "cpus": 3, "paths": 13, "engine": "mlmc-fixed"})
+    # the REAL engines on the REAL simulators with the REAL pool and the REAL generators: which samples share variates, as
+    # recovered from the simulated paths, against what the tracing generator + SimPool say about the same configuration
+    for engine, process in (("standard", "levy"), ("standard", "chain"), ("mlmc-fixed", "chain")):
+        for mode in ("jumptimes", "fixed"):
+            for seed in (None, SEED):
+                envs = [(2, None, 9)] + ([(2, None, 8), (3, None, 13), (None, 2, 17)] if thorough else [])
+                if engine == "standard" and mode == "jumptimes" and not thorough:
+                    envs.append((None, 2, 8))  # chunks of one path
+                for procs, cpus, paths in envs:
+                    out.append({"sub": "conformance-variates", "engine": engine, "process": process, "mode": mode, "seed": seed,
+                                "procs": procs, "cpus": cpus, "paths": paths, "model": "hem" if engine != "standard" or seed is None else "merton"})
     return out
 
 
 def check_case(sh, case):
-    {"run": _run, "repeat": _repeat, "history": _history, "conformance": _conformance}[case["sub"]](sh, case)
+    {"run": _run, "repeat": _repeat, "history": _history, "conformance": _conformance,
+     "conformance-variates": _conformance_variates}[case["sub"]](sh, case)
 
 
 # ----------------------------------------------------------------------------------------------------------------------
 # construction of the real objects
 # ----------------------------------------------------------------------------------------------------------------------
 
-def make_product(mode):
+class _PayoffFailure(Exception):
+    pass
+
+
+def make_product(mode, fails_at=None, int_maturity=False):
     from rpylib.product.payoff import Forward, PayoffDates
     from rpylib.product.product import Product
     from rpylib.product.underlying import Spot
 
-    payoff = Forward(strike=0.0)
+    if fails_at is None:
+        payoff = Forward(strike=0.0)
+    else:
+        class Failing(Forward):  # a user's payoff that raises at its `fails_at`-th evaluation
+            calls = 0
+
+            def evaluate(self, underlying):
+                self.calls += 1
+                if self.calls >= fails_at:
+                    raise _PayoffFailure()
+                return underlying - self.strike
+
+        payoff = Failing(strike=0.0)
     if mode == "jumptimes":
         payoff.payoff_dates_type = PayoffDates.STOCHASTIC
-    return Product(payoff_underlying=Spot(), payoff=payoff, maturity=1.0)
+    return Product(payoff_underlying=Spot(), payoff=payoff, maturity=1 if int_maturity else 1.0)
 
 
 def _kind(case):
@@ -279,16 +358,20 @@ def make_configuration(case, paths=None, seed="case", procs="case"):
     seed = case["seed"] if seed == "case" else seed
     procs = case.get("procs", 1) if procs == "case" else procs
     e = case["engine"]
+    # argument form: the integer arguments as numpy integers (what arithmetic on arrays hands over) instead of Python ints; the
+    # seed stays a Python int (random.seed refuses numpy integers: the unchanged tree raises)
+    i = np.int64 if case.get("forms") == "numpy-int" else int
+    paths, procs = i(paths), (None if procs is None else i(procs))
     if e == "standard":
         return ConfigurationStandard(mc_paths=paths, seed=seed, nb_of_processes=procs)
     if e == "mlmc-fixed":
-        return ConfigurationMultiLevel(initial_level=1, maximum_level=2, initial_mc_paths=paths, seed=seed, nb_of_processes=procs)
+        return ConfigurationMultiLevel(initial_level=i(1), maximum_level=i(2), initial_mc_paths=paths, seed=seed, nb_of_processes=procs)
     if e == "mlmc-adaptive":
-        return ConfigurationMultiLevel(convergence_rates=ConvergenceRates(alpha=1.0, beta=2.0, gamma=1.0), initial_level=2,
-                                       maximum_level=3, initial_mc_paths=paths, seed=seed, nb_of_processes=procs)
+        return ConfigurationMultiLevel(convergence_rates=ConvergenceRates(alpha=1.0, beta=2.0, gamma=1.0), initial_level=i(2),
+                                       maximum_level=i(3), initial_mc_paths=paths, seed=seed, nb_of_processes=procs)
     # histories: one configuration serves both pricing methods (the default convergence criteria need three levels)
-    return ConfigurationMultiLevel(convergence_rates=ConvergenceRates(alpha=1.0, beta=2.0, gamma=1.0), initial_level=2,
-                                   maximum_level=3, initial_mc_paths=paths, seed=seed, nb_of_processes=procs)
+    return ConfigurationMultiLevel(convergence_rates=ConvergenceRates(alpha=1.0, beta=2.0, gamma=1.0), initial_level=i(2),
+                                   maximum_level=i(3), initial_mc_paths=paths, seed=seed, nb_of_processes=procs)
 
 
 def make_process(case):
@@ -341,7 +424,7 @@ def set_paths(conf, n):
 def build_and_price(case):
     """Construct real objects and run the engine once; returns the statistics object."""
     eng = make_engine(case, make_configuration(case), make_process(case))
-    return do_op(eng, make_product(case["mode"]), _kind(case)[1]), eng
+    return do_op(eng, make_product(case["mode"], int_maturity=case.get("forms") == "numpy-int"), _kind(case)[1]), eng
 
 
 def stored_rows(stats):
@@ -415,8 +498,11 @@ def run_once(case, chooser, boot="A"):
     return h, stats
 
 
-def classify(h, s1, s2, kind):
+def classify(h, s1, s2, kind, origin=None):
     a, b = h.samples[s1], h.samples[s2]
+    if kind == "captured-generator":
+        where = "pool-chunk-copies" if (a["ctx"] != "parent" or b["ctx"] != "parent") else "single-process"
+        return f"generator-object-copied-with-its-holder:{origin}:{where}"
     if kind == "pre-drawn":
         where = "two-pool-chunk-copies" if (a["ctx"] != "parent" or b["ctx"] != "parent") else "single-process"
         return f"pre-drawn-row-consumed-twice:{where}"
@@ -450,7 +536,12 @@ def check_sharing(sh, mode, h, tag, lo=0, hi=None):
                 both_rows = t in rows_here and t in h.samples[o].get("row_tags", set())
                 one_row = (t in rows_here) != (t in h.samples[o].get("row_tags", set()))
                 kind = "pre-drawn" if both_rows else ("pre-drawn-vs-stream" if one_row else "stream")
-                cls = classify(h, o, sid, kind)
+                # a variate drawn by a DETACHED generator object: a copy of a generator made together with the library object
+                # that holds it (every chunk copy of the process replays the positions after the moment of pickling)
+                origin = h.samples[sid].get("detached", {}).get(t) or h.samples[o].get("detached", {}).get(t)
+                if origin is not None and not both_rows:
+                    kind = "captured-generator"
+                cls = classify(h, o, sid, kind, origin)
                 if cls not in seen:
                     seen.add(cls)
                     a, b = h.samples[o], h.samples[sid]
@@ -463,6 +554,32 @@ def check_sharing(sh, mode, h, tag, lo=0, hi=None):
         if bad:
             sh.violation(f"C08:{tag}:sample-does-not-pop-exactly-one-pre-drawn-row",
                          f"samples {bad[:5]} popped {[h.samples[b].get('popped') for b in bad[:5]]} rows", None)
+    check_content(sh, h, tag, sids)
+
+
+def check_content(sh, h, tag, sids):
+    """every random content of a sample's path is backed by recorded variates: a non-zero Brownian increment by a normal variate
+    (drawn on the fly or popped with a pre-drawn row), jumps by at least one more variate. A path with content and no recorded
+    variate was drawn from a source the tracing generator does not see - the oracle of sharing would be blind to it."""
+    if h.unattributed or any(e[0] == "pre-computation-draw-pattern-unknown" for e in h.events):
+        return  # variates not attributed to samples: already reported as a cap by _blind_spots
+    seen = set()
+    for sid in sids:
+        s = h.samples[sid]
+        c = s.get("content")
+        if c is None:
+            sh.count("path_content_not_measured")
+            continue
+        nd, nj = c
+        normals, total = s["kinds"].get("normal", 0), sum(s["kinds"].values())
+        sh.count("path_content_checked")
+        what = "brownian-increments" if normals < nd else ("jumps" if (nj and total - nd < 1) else None)
+        if what and what not in seen:
+            seen.add(what)
+            sh.violation(f"C08:{tag}:path-content-without-recorded-variate:{what}",
+                         f"sample #{sid} ({s['ctx']}): its path has {nd} non-zero Brownian increments and {nj} non-zero jump "
+                         f"increments, but only {s['kinds']} variates were recorded while it was simulated: the others come from "
+                         f"a generator the harness does not see (captured before the run / private generator object)", None)
 
 
 def _env_tag(seed, procs):
@@ -479,6 +596,8 @@ def _engine_tag(case):
 
 def _run(sh, case):
     tag = f"{_engine_tag(case)}:{case['mode']}:{_env_tag(case['seed'], case['procs'])}"
+    if case.get("forms"):
+        tag = f"{_engine_tag(case)}:{case['forms']}-arguments:{case['mode']}:{_env_tag(case['seed'], case['procs'])}"
     outcomes = set()
 
     def run(ch):
@@ -513,10 +632,21 @@ def _repeat(sh, case):
         tag += f":{case['model']}"
     if case["seed"] != SEED:
         tag += f":seed={case['seed']}"
+    if case.get("forms"):
+        tag += f":{case['forms']}-arguments"
     rows = []
     for boot in ("A", "B"):
         ch = core.Chooser([])
-        h, stats = run_once(dict(case, procs=1), ch, boot=boot)
+        # argument forms: the first run has the usual forms (Python ints, float maturity), the second one the other form
+        c = dict(case, procs=1, forms=case.get("forms") if boot == "B" else None)
+        try:
+            h, stats = run_once(c, ch, boot=boot)
+        except (TypeError, ValueError) as exc:
+            if boot == "B" and case.get("forms"):  # a form the tree refuses is outside the alphabet: counted, never an alarm
+                sh.count("argument_form_rejected")
+                sh.note(f"repeat {tag}: the form is rejected ({type(exc).__name__}: {str(exc)[:80]})")
+                return
+            raise
         rows.append(stored_rows(stats))
         sh.count("evaluations")
     if not same_rows(rows[0], rows[1]):
@@ -563,9 +693,21 @@ def play_history(case, chooser):
         cur = (make_engine(case, make_configuration(case), make_process(case)), eff)
         for st in case["steps"]:
             on = st.get("on", "same")
-            if on == "copy":
-                cur = (copy.deepcopy(cur[0]), dict(cur[1]))
+            if on in ("copy", "dill-copy", "shallow-copy"):
+                if on == "copy":
+                    twin = copy.deepcopy(cur[0])
+                elif on == "shallow-copy":  # shares the configuration and the process with the original
+                    twin = copy.copy(cur[0])
+                else:
+                    import dill
+
+                    twin = dill.loads(dill.dumps(cur[0]))
+                cur = (twin, dict(cur[1]) if on != "shallow-copy" else cur[1])
                 eng, eff = cur
+            elif on == "copied-process":  # another engine + configuration on a deep copy of the process
+                eff = dict(cur[1])
+                eng = make_engine(case, make_configuration(case, eff["paths"], eff["seed"], eff["procs"]),
+                                  copy.deepcopy(engine_process(cur[0])))
             elif on == "other-engine":
                 eff = dict(cur[1])
                 eng = make_engine(case, make_configuration(case, eff["paths"], eff["seed"], eff["procs"]), make_process(case))
@@ -598,6 +740,12 @@ def play_history(case, chooser):
                     eng.initialisation(products[mode])
             elif st.get("pre") == "pre_computation":  # variates pre-drawn by the user and left unconsumed
                 engine_process(eng).pre_computation(mc_paths=eff["paths"], product=products[mode])
+            elif st.get("pre") == "failed-pricing":  # a pricing that dies in the path loop (the user's payoff raises), caught
+                try:
+                    do_op(eng, make_product(mode, fails_at=3), st["op"])
+                    raise RuntimeError("the failing payoff did not fail")
+                except _PayoffFailure:
+                    pass
             lo = h.mark()
             stats = do_op(eng, products[mode], st["op"])
             out.append({"mode": mode, "eff": dict(eff), "op": st["op"], "lo": lo, "hi": h.mark(), "rows": stored_rows(stats)})
@@ -803,3 +951,115 @@ def _conformance(sh, case):
         sh.outcome((procs, case.get("cpus"), n, lvl, cs))  # not the number of distinct pids: that is the OS scheduler's choice
     sh.nontriv()
     sh.sample({"sub": "conformance", "case": case, "chunk_size": cs, "distinct_worker_pids": len(pids), "first_reports": rep[:6]})
+
+
+# ----------------------------------------------------------------------------------------------------------------------
+# conformance of the tracing generator + SimPool with the real generators + the real pool: variates recovered from the paths
+# ----------------------------------------------------------------------------------------------------------------------
+
+RECOVERED_RTOL = 1e-11  # two independent continuous variates are this close with probability ~1e-11 per pair (a few 1e3 pairs)
+
+
+def recovered_variates(path, levy):
+    """family -> values that are (proportional to) the random variates a path was built from: Brownian increment / sqrt(dt)
+    (= sigma Z, the same sigma for every sample of the run), the jump times strictly inside the horizon and - direct simulation
+    only, the jumps of a chain are grid points - the jump sizes"""
+    t = np.asarray(path.times(), dtype=float)
+    d = np.atleast_2d(np.asarray(path.diffusion_path, dtype=float))[0]
+    j = np.atleast_2d(np.asarray(path.jump_path, dtype=float))[0]
+    dt, dw = np.diff(t), np.diff(d)
+    ok = (dt > 0) & (dw != 0)
+    out = {"brownian": (dw[ok] / np.sqrt(dt[ok])).tolist(), "jump-time": [x for x in t[1:-1].tolist() if x > 0.0]}
+    if levy:
+        dj = np.diff(j)
+        out["jump-size"] = dj[dj != 0].tolist()
+    return out
+
+
+def sharing_pairs_recovered(variates):
+    """{(i, j): families} for the samples i < j of a run that share a recovered variate"""
+    pairs = {}
+    fams = sorted({f for v in variates for f in v})
+    for fam in fams:
+        vals = sorted((x, i) for i, v in enumerate(variates) for x in v.get(fam, ()))
+        for k, (x, i) in enumerate(vals):
+            m = k + 1
+            while m < len(vals) and abs(vals[m][0] - x) <= RECOVERED_RTOL * max(abs(x), abs(vals[m][0])):
+                if vals[m][1] != i:
+                    pairs.setdefault((min(i, vals[m][1]), max(i, vals[m][1])), set()).add(fam)
+                m += 1
+    return pairs
+
+
+def _conformance_variates(sh, case):
+    import warnings
+
+    import rpylib.montecarlo.path as P
+
+    mode, n = case["mode"], case["paths"]
+    tag = f"conformance-real-pool:{_engine_tag(case)}:{mode}:{_env_tag(case['seed'], case['procs'])}"
+    levy = case.get("process") == "levy"
+    # -- the model: tracing generator + SimPool, default schedule
+    h, _ = run_once(case, core.Chooser([]))
+    sids = sorted(h.samples)
+    predicted = set()
+    for a in range(len(sids)):
+        for b in range(a + 1, len(sids)):
+            if h.samples[sids[a]]["tags"] & h.samples[sids[b]]["tags"]:
+                predicted.add((a, b))
+    # -- the implementation: every path the real pool hands back to the parent's path manager
+    if "set_to_path" not in vars(P.MCPath):
+        sh.cap("MCPath.set_to_path is not there any more: the paths of the real pool are not observed")
+        return
+    paths = []
+    orig = P.MCPath.set_to_path
+
+    def set_to_path(self_, stochastic_path):
+        paths.append(stochastic_path)
+        return orig(self_, stochastic_path)
+
+    real_cpu_count = os.cpu_count
+    P.MCPath.set_to_path = set_to_path
+    if case["procs"] is None:
+        os.cpu_count = lambda: case["cpus"]
+    try:
+        with warnings.catch_warnings(), _Quiet():
+            warnings.simplefilter("ignore")
+            build_and_price(case)
+    finally:
+        P.MCPath.set_to_path = orig
+        os.cpu_count = real_cpu_count
+    sh.count("evaluations", len(paths))
+    if len(paths) != len(sids):
+        sh.violation(f"C08:{tag}:number-of-paths-of-the-real-pool-differs-from-the-SimPool-model",
+                     f"{len(paths)} paths handed to the path manager with the real pool, {len(sids)} samples under SimPool", None)
+        return
+    observed = sharing_pairs_recovered([recovered_variates(p, levy) for p in paths])
+    workers = case["procs"] if case["procs"] is not None else (case["cpus"] or 1)
+    cs, extra = divmod(n, 4 * workers)
+    cs += 1 if extra else 0
+    seen = set()
+    for (i, j), fams in sorted(observed.items()):
+        # the open known finding: the pre-drawn row (jump counts + Brownian increments) popped by the k-th path of every chunk
+        same_slot = mode == "fixed" and i // n == j // n and (i % n) % cs == (j % n) % cs and (i % n) // cs != (j % n) // cs
+        cls = ("pre-drawn-row-consumed-twice:two-pool-chunk-copies" if same_slot and fams <= {"brownian"}
+               else "variates-recovered-from-the-paths-coincide:" + "+".join(sorted(fams)))
+        if cls not in seen:
+            seen.add(cls)
+            sh.violation(f"C08:{tag}:samples-share-variates:{cls}",
+                         f"real pathos pool, real generators: samples #{i} and #{j} of {len(paths)} are built from the same "
+                         f"{sorted(fams)} variates (recovered from their paths, rtol {RECOVERED_RTOL}); chunks of {cs} paths", None)
+    if set(observed) != predicted:
+        only_real, only_model = sorted(set(observed) - predicted)[:6], sorted(predicted - set(observed))[:6]
+        sh.violation(f"C08:{tag}:sharing-with-the-real-pool-differs-from-the-tracing-generator-model",
+                     f"pairs of samples sharing variates: {len(observed)} with the real pool and generators, {len(predicted)} under "
+                     f"the tracing generator + SimPool; only real: {only_real}; only model: {only_model}", None)
+    else:
+        sh.traces += 1
+    sh.outcome((tag, n, len(predicted)))
+    sh.cls(f"conformance-variates:{_engine_tag(case)}:{mode}")
+    if len(paths) >= 2:
+        sh.nontriv()
+    if case["paths"] == 9 and case["seed"] is None and case["engine"] == "standard" and levy:
+        sh.sample({"sub": "conformance-variates", "case": case, "paths": len(paths), "chunk_size": cs,
+                   "pairs_sharing_real": len(observed), "pairs_sharing_model": len(predicted)})
